@@ -633,13 +633,15 @@ fn dyn_struct_go_name(trait_name: &str) -> String {
     go_ident(&format!("dyn__{}", trait_name))
 }
 
+// The helper names of one trait start with a prefix of their own kind, so that the vtable struct of
+// `Show` (once `dyn__Show_vtable`) cannot be the dyn struct of a trait named `Show_vtable`.
 fn dyn_vtable_struct_go_name(trait_name: &str) -> String {
-    go_ident(&format!("dyn__{}_vtable", trait_name))
+    go_ident(&format!("dyn_vtable__{}", trait_name))
 }
 
 fn dyn_vtable_ctor_go_name(trait_name: &str, for_ty: &tast::Ty) -> String {
     go_ident(&format!(
-        "dyn__{}__vtable__{}",
+        "dyn_vtable_new__{}__{}",
         trait_name,
         encode_ty(for_ty)
     ))
@@ -647,7 +649,7 @@ fn dyn_vtable_ctor_go_name(trait_name: &str, for_ty: &tast::Ty) -> String {
 
 fn dyn_wrap_go_name(trait_name: &str, for_ty: &tast::Ty, method_name: &str) -> String {
     go_ident(&format!(
-        "dyn__{}__wrap__{}__{}",
+        "dyn_wrap__{}__{}__{}",
         trait_name,
         encode_ty(for_ty),
         method_name
